@@ -163,7 +163,7 @@ def r2(cx):
                  note_ok="line = count(b'\\n' in input[..pos]) + 1; column = chars since last '\\n' + 1  =>  nth(line-1) exists and column <= chars(line)+1")
 
 
-def r3(cx):
+def r3(cx, rule="C12.R3"):
     roots = [cx.mir.one("varlink_parser", "<IDL<'a> as std::convert::TryFrom<&'a str>>::try_from"),
              cx.mir.one("varlink_parser", "IDL::<'a>::from_token"), cx.mir.one("varlink_parser", "trim_doc")]
     disp = [b for b in cx.mir.bodies("varlink_parser") if b.promoted is None and b.path.endswith("::fmt") and "Error" in (b.impl_self or "") and "format.rs" not in b.sp]
@@ -179,10 +179,10 @@ def r3(cx):
             key = "%s:%s" % (b.pkg, ps["skey"])
             seen.add(key)
             if key in PANIC_TABLE:
-                cx.ok("C12.R3", key, "%s %s" % (ps["sp"], b.path), "table: " + PANIC_TABLE[key])
+                cx.ok(rule, key, "%s %s" % (ps["sp"], b.path), "table: " + PANIC_TABLE[key])
             else:
-                cx.bad("C12.R3", key, "%s %s" % (ps["sp"], b.path), "new may-panic construct (%s %s) in the hand-written parser path: it needs a proof obligation in the table" % (ps["kind"], ps["what"]))
-    cx.floor("C12.R3", "functions on the hand-written parser path", len(bodies), 4)
+                cx.bad(rule, key, "%s %s" % (ps["sp"], b.path), "new may-panic construct (%s %s) in the hand-written parser path: it needs a proof obligation in the table" % (ps["kind"], ps["what"]))
+    cx.floor(rule, "functions on the hand-written parser path", len(bodies), 4)
     cx.notes.append("C12.R3: %d may-panic constructs in %d functions; peg-expanded code is covered by R1 (termination) and slices only at positions the runtime produced" % (n, len(bodies)))
     # renderability: Error derives Display through thiserror with a width argument only
     err = cx.ast.items("varlink_parser/src/lib.rs", kind="enum", name="Error")
@@ -196,5 +196,5 @@ def r3(cx):
             if f.name == "fmt" and "Display" in (f.trait or "") and f.self_ty.replace(" ", "") == "Error":
                 txt = " ".join(tt_str(m["tokens"]) for m in f.macros() if m["name"] in ("write", "writeln")).replace(" ", "")
                 if re.search(r"\{\w*:>\w+\$\}", txt) and ("{line}" in txt or "line" in txt): okd = True
-    cx.check(okd, "C12.R3", "varlink_parser:Error:display-format", "varlink_parser/src/lib.rs:%d" % err[0]["line"],
+    cx.check(okd, rule, "varlink_parser:Error:display-format", "varlink_parser/src/lib.rs:%d" % err[0]["line"],
              "the parse error is not rendered as line + caret padded to the column (format: %s)" % attrs[:160], note_ok="\"{line}\\n{marker:>column$}\" — a width never panics")
